@@ -48,6 +48,7 @@ type FakeProxy struct {
 	OnList func(ids []string)
 
 	batches chan []string
+	listN   int // list replies so far (their framing rotates)
 
 	mu      sync.Mutex
 	Uploads []*Upload
@@ -103,8 +104,26 @@ func (p *FakeProxy) serve(w http.ResponseWriter, r *http.Request) {
 				p.OnList(ids)
 			}
 			b, _ := json.Marshal(ids)
+			// the reply in the framings a proxy (or something in front of it) may choose: with Content-Length,
+			// chunked in one piece, chunked in two pieces, and with a little legal JSON whitespace
+			p.mu.Lock()
+			p.listN++
+			form := p.listN % 4
+			p.mu.Unlock()
 			w.WriteHeader(200)
-			w.Write(b)
+			switch form {
+			case 1:
+				w.Write(b)
+				w.(http.Flusher).Flush() // flushing before the handler returns: no Content-Length, chunked
+			case 2:
+				w.Write(b[:len(b)/2])
+				w.(http.Flusher).Flush()
+				w.Write(b[len(b)/2:])
+			case 3:
+				w.Write(append(append([]byte(" \n"), bytes.ReplaceAll(b, []byte(","), []byte(" ,\n "))...), '\n'))
+			default:
+				w.Write(b)
+			}
 		case <-r.Context().Done():
 		case <-time.After(25 * time.Second):
 			w.WriteHeader(200)
